@@ -162,7 +162,7 @@ var goOpFor = map[string]token.Token{
 }
 
 func ruleTB9b() Rule {
-	return Rule{ID: "TB9b", Kind: "agreement", Floor: 20,
+	return Rule{ID: "TB9b", Kind: "agreement", Floor: 10,
 		Doc: "in calculate/compare/unary, under `case \"S\"` the computed expression is `l S r` with the operands in that order (unary: S n; `!` as n == 0 ? 1 : 0; `~` as ^n), on signed operands; ParseInt uses base 0 and the platform's 64-bit int; compound assignment strips exactly the trailing `=`; truth tests compare with 0 by != / ==",
 		Run: func(c *Ctx, rr *core.RuleResult) {
 			for _, spec := range []struct {
